@@ -530,3 +530,148 @@ def r6(cx):
                          'multi-byte character (e.g. an alias value with é or a U+3000 blank)' % pp.callee(t), loc=b.loc(t))
     cx.site('lexer/parser core: %d bodies scanned for byte lengths; matcher validated on %d yash_arith sites' % (n, len(pos)))
     cx.floor(n, 40, 'lexer core bodies')
+
+
+NEWLINE_SKIP = [re.compile(r"^yash_syntax::parser::list::<impl yash_syntax::parser::core::Parser<'_, '_>>::newline_and_here_doc_contents$"),
+                re.compile(r'::newline_and_here_doc_contents$')]
+
+
+@RS.rule('C17.R5b', 'K-SIBLING', 'where the grammar allows line breaks before a command (after `&&`, `||`, `|`, ...), they are skipped again '
+         'when the command is re-parsed after an alias substitution (the replacement may be blank and be followed by a newline)')
+def r5b(cx):
+    F = cx.F
+    n = 0
+    for body in F.bodies_in(['yash_syntax::parser::']):
+        skips = Q.find_calls(body, NEWLINE_SKIP)
+        if not skips:
+            continue
+        du = Q.DefUse(body)
+        for b in sorted(body.live_blocks()):
+            if body.term(b)['k'] != 'switch':
+                continue
+            ec = Q.edge_condition(F, body, du, b)
+            if ec is None or ec[0]['k'] != 'discr' or not ec[0]['ty'].startswith(REC + '<'):
+                continue
+            org, labels = ec
+            src = Q.value_source(body, du, {'cp': {'l': org['pl']['l']}})
+            if src is None:
+                continue
+            sb = [pb for pb, pt in body.calls() if pt is src]
+            if not sb:
+                continue
+            sb = sb[0]
+            # the first attempt comes after a newline skip (the skip loop's exit dominates the producer call)
+            pre = [(kb, kt) for kb, kt in skips if body.dominates(kb, sb)]
+            if not pre:
+                continue
+            for tgt, labs in labels.items():
+                if set(labs) != {('variant', 'AliasSubstituted')}:
+                    continue
+                if sb not in body.reachable(tgt):
+                    continue          # not a retry loop (AliasSubstituted is returned to the caller)
+                n += 1
+                cx.fn(body.root)
+                p = body.shortest_path(tgt, {sb}, removed={kb for kb, _ in skips})
+                cx.site('%s: %s retried after an alias substitution at %s; line breaks skipped again: %s'
+                        % (body.root, pp.callee(src).split('::')[-1], body.loc(src), p is None))
+                if p is not None:
+                    cx.violation(body.root, 'retry-without-linebreak:%s' % pp.callee(src).split('::')[-1], 'after an alias substitution the '
+                                 'command is parsed again without skipping line breaks, although they were skipped before the first '
+                                 'attempt: with `alias b=" "`, `true && b<newline>echo ok` is a syntax error while the text obtained by '
+                                 'substituting by hand (`true &&  <newline>echo ok`) is valid', loc=body.loc(src), path=Q.render_path(body, p))
+    cx.floor(n, 1, 'alias-retry loops preceded by a line-break skip')
+
+
+ALIAS_INSPECTORS = {
+    # functions of the lexer/parser that look at Source::Alias themselves, with the reason they may
+    "yash_syntax::parser::lex::core::LexerCore::<'a>::next_index": 'numbers the characters of a replacement (no identity test)',
+    "yash_syntax::parser::lex::core::LexerCore::<'a>::is_after_blank_ending_alias": 'walks from the previous character up its chain of alias origins; '
+                                                                                   'the identity test itself is delegated to is_alias_for',
+}
+
+
+@RS.rule('C17.R4b', 'K-CALLERS', '"does this character come from alias X" is answered only by Source::is_alias_for (which follows the whole chain '
+         'of nested substitutions); the blank-ending test uses it for the next character')
+def r4b(cx):
+    F = cx.F
+    n = 0
+    for k, b in F.bodies.items():
+        if not k.startswith('yash_syntax::parser::'):
+            continue
+        du = None
+        for u in sorted(b.live_blocks()):
+            if b.term(u)['k'] != 'switch':
+                continue
+            du = du or Q.DefUse(b)
+            ec = Q.edge_condition(F, b, du, u)
+            if not (ec and ec[0]['k'] == 'discr' and ec[0]['ty'].endswith('source::Source')):
+                continue
+            if not any(set(labs) == {('variant', 'Alias')} for labs in ec[1].values()):
+                continue
+            n += 1
+            cx.fn(b.fn)
+            ok = b.fn in ALIAS_INSPECTORS
+            cx.site('%s inspects Source::Alias at %s: %s' % (b.fn, b.loc(b.term(u)), ALIAS_INSPECTORS.get(b.fn, 'NOT REVIEWED')))
+            if not ok:
+                cx.violation(b.fn, 'direct-alias-test', 'the origin of a character is compared with an alias by looking at the innermost '
+                             'Source::Alias only: a word that came from a nested substitution inside a blank-ending alias value is then taken '
+                             'for text after that value and is alias-substituted although it is not in command position', loc=b.loc(b.term(u)))
+    cx.floor(n, 2, 'functions of the parser that inspect Source::Alias')
+    root = "yash_syntax::parser::lex::core::LexerCore::<'a>::is_after_blank_ending_alias"
+    users = [b for b, blk, t in F.callers_of(lambda names, t: any(x.endswith('Source::is_alias_for') for x in names)) if b.fn.startswith(root)]
+    cx.site('is_after_blank_ending_alias asks Source::is_alias_for in %s' % sorted({b.fn for b in users}))
+    if not users:
+        cx.violation(root, 'no-is_alias_for', 'is_after_blank_ending_alias no longer asks Source::is_alias_for whether the next character still '
+                     'belongs to the blank-ending alias', loc=F.body(root).loc(F.body(root).d))
+
+
+@RS.rule('C17.R1c', 'K-PASS', 'Parser::substitute_alias refuses a substitution only through the reviewed tests (no glossary, not a word token, '
+         'not literal, inside its own replacement, undefined, no eligible position): no other condition can veto it')
+def r1c(cx):
+    F = cx.F
+    body = F.inlined(F.body(PSUB))
+    cx.fn(body.fn)
+    du = Q.DefUse(body)
+    parsed = {blk for blk, j, s in Q.find_aggregates(body, REC, 'Parsed')}
+    cx.require(parsed, 'Parser::substitute_alias has no Rec::Parsed exit')
+
+    def src_is(org, pats):
+        if org['k'] != 'discr':
+            return False
+        src = Q.value_source(body, du, {'cp': {'l': org['pl']['l']}})
+        return src is not None and Q.callee_is(src, pats)
+
+    def reject(org, lab):
+        if org['k'] == 'call' and Q.callee_is(org['t'], ['yash_env::alias::Glossary::is_empty', '*::Glossary::is_empty']):
+            return lab == ('bool', True)
+        if org['k'] == 'discr' and 'TokenId' in (org.get('ty') or ''):
+            return lab != ('variant', 'Token')
+        if src_is(org, ['*::MaybeLiteral::to_string_if_literal']) or src_is(org, ['yash_env::alias::Glossary::look_up', '*::Glossary::look_up']):
+            return lab == ('variant', 'None')
+        if org['k'] == 'call' and Q.callee_is(org['t'], [IS_ALIAS_FOR]):
+            return lab == ('bool', True)
+        if org['k'] == 'arg' and body.locals[org['l']].get('ty') == 'bool':
+            return lab == ('bool', False)
+        if org['k'] == 'place' and any(isinstance(e, dict) and e.get('f') == 'global' for e in (org['pl'].get('p') or [])):
+            return lab == ('bool', False)
+        if org['k'] == 'call' and Q.callee_is(org['t'], ['*::is_after_blank_ending_alias']):
+            return lab == ('bool', False)
+        return False
+
+    edges = set()
+    for u in sorted(body.live_blocks()):
+        ec = Q.edge_condition(F, body, du, u)
+        if ec is None:
+            continue
+        org, labels = ec
+        for tgt, labs in labels.items():
+            if labs and all(reject(org, lab) for lab in labs):
+                edges.add((u, tgt))
+    cx.site('%s: %d reviewed refusal edges; exits without substitution: %s' % (body.fn, len(edges), sorted(parsed)))
+    cx.require(len(edges) >= 6, 'fewer than 6 reviewed refusal edges found in substitute_alias (shape changed: review)')
+    p = body.shortest_path(0, parsed, removed_edges=edges)
+    if p is not None:
+        cx.violation(PSUB, 'unreviewed-refusal', 'Parser::substitute_alias can return the token unsubstituted without any of the reviewed '
+                     'tests failing: an additional condition vetoes alias substitution (e.g. a word spelled like a reserved word in '
+                     'command-name position after an assignment or redirection, `X=1 if`, where it IS an ordinary command name)',
+                     loc=body.loc(body.term(p[min(len(p) - 1, 1)])), path=Q.render_path(body, p))
